@@ -11,6 +11,8 @@
                             mirror step is 2-to-1 and measure preserving, rotations / translations keep every share
     * Props/C11Strat.lean   Latin hypercube: exactly one point per slab; perimeter walks: every edge is traversed
                             with its own arclength parameter; interval grid evenness
+    * Props/C11Joint.lean   joint law of the first n accepted proposals (Measure.pi / infinitePi); Props/C11Grid.lean: 2-D grid
+                            evenness, circle-line arclength
     * Props/C11Finite.lean  finite (counting-measure) models with exact rational probabilities: union mixture law
                             (uniform iff the operands do not overlap; density ratio 1 + |A∩B|/|A| otherwise),
                             dependent-product acceptance (density ∝ fibre volume when the batch maximum is the
